@@ -1483,7 +1483,8 @@ class Exec:
             fn = self.resolve(callee2, args)
             if fn is not None:
                 return self.call_function(fn, args, fr.depth + 1)
-            raise Unsupported(f"unresolved call `{callee}`")
+            if not getattr(self.ctx, "uninterpreted_unknown_calls", False):
+                raise Unsupported(f"unresolved call `{callee}`")
         fn = self.resolve(callee, args)
         if fn is None:
             if getattr(self.ctx, "uninterpreted_unknown_calls", False):
@@ -1606,6 +1607,8 @@ class Exec:
             names = {(f.name, f.crate) for f in c2}
             if len({f.name for f in c2}) == 1:
                 return c2[0]
+            if getattr(self.ctx, "uninterpreted_unknown_calls", False):
+                return None     # dataflow obligations: an unresolvable callee is an uninterpreted function
             raise Unsupported(f"ambiguous call `{callee}`: {[f.name for f in c2][:4]}")
         return None
 
